@@ -170,6 +170,16 @@ def worker(spec_path, out_path):
             res["early"] = {}
             for name in spec.get("extract_early", []):
                 res["early"][name] = extractors.EXTRACTORS[name](eq, mesh, spec)
+            if spec.get("redistribute") is not None:
+                # the interactive sequence: show the grid, then change non-orthogonal settings step by step
+                mesh.calculateRZ()
+                for st in spec["redistribute"]:
+                    mesh.redistributePoints(dict(st))
+                    mesh.calculateRZ()
+                res["recorded_nonorthogonal_options"] = {k: (v if isinstance(v, (int, float, str, bool, type(None))) else str(v))
+                                                         for k, v in dict(eq.nonorthogonal_options).items()}
+                res["region_nonorthogonal_options"] = {name: {k: (v if isinstance(v, (int, float, str, bool, type(None))) else str(v))
+                                                              for k, v in dict(r.nonorthogonal_options).items()} for name, r in eq.regions.items()}
             mesh.geometry()
             nc = out_path + ".nc"
             mesh.writeGridfile(nc)
@@ -205,8 +215,24 @@ def worker(spec_path, out_path):
 # client side
 
 
+_TOOL_HASH = None
+
+
+def tool_hash():
+    """hash of the worker-side code (this file and the extractors): cached results are only reused for the same worker code"""
+    global _TOOL_HASH
+    if _TOOL_HASH is None:
+        h = hashlib.sha256()
+        here = os.path.dirname(os.path.abspath(__file__))
+        for f in ("gridlab.py", "extractors.py"):
+            with open(os.path.join(here, f), "rb") as fh:
+                h.update(fh.read())
+        _TOOL_HASH = h.hexdigest()[:8]
+    return _TOOL_HASH
+
+
 def spec_key(spec):
-    return hashlib.sha256(json.dumps(spec, sort_keys=True).encode()).hexdigest()[:20]
+    return hashlib.sha256((tool_hash() + json.dumps(spec, sort_keys=True)).encode()).hexdigest()[:20]
 
 
 def get(specs, nproc=None, timeout=1800, cache=True):
@@ -254,8 +280,14 @@ def get(specs, nproc=None, timeout=1800, cache=True):
         with open(out, "rb") as fh:
             return pickle.load(fh)
 
+    # identical specs are built once
+    uniq = {}
+    for sp in specs:
+        uniq.setdefault(spec_key(sp), sp)
+    keys = list(uniq)
     with ThreadPoolExecutor(max_workers=nproc) as ex:
-        return list(ex.map(one, specs))
+        done = dict(zip(keys, ex.map(one, [uniq[k] for k in keys])))
+    return [done[spec_key(sp)] for sp in specs]
 
 
 if __name__ == "__main__":
